@@ -144,6 +144,11 @@ func vfc11BuildIndex(ctx context.Context, rng *rand.Rand, root string, c int, ma
 		default:
 			n = fmt.Sprintf("n%d", rng.Intn(40))
 		}
+		// Long label names: the length prefix of the name in the postings offset table becomes 2 bytes
+		// at 128 bytes (uvarint), which every "skip key count + name" shortcut must cope with.
+		if rng.Intn(6) == 0 {
+			n = n + strings.Repeat("x", vfkit.Pick(rng, []int{120, 125, 126, 127, 128, 129, 200, 300, 16400})-len(n)%100)
+		}
 		if _, ok := nameSeen[n]; ok || n == "" {
 			continue
 		}
